@@ -16,9 +16,10 @@ const (
 	typeBash  string = "bash"
 )
 
-var convMapping = map[string]transpiler.Converter{
-	typeBatch: batch.New(),
-	typeBash:  bash.New(),
+// A new converter is created for every requested target because converters accumulate the emitted code.
+var convMapping = map[string]func() transpiler.Converter{
+	typeBatch: func() transpiler.Converter { return batch.New() },
+	typeBash:  func() transpiler.Converter { return bash.New() },
 }
 
 type options struct {
@@ -63,7 +64,7 @@ func parseOptions() options {
 			if !ok {
 				panic(fmt.Errorf("unknown converter type %s. Allowed types are %s", cValue, strings.Join(types, ", ")))
 			}
-			options.converters = append(options.converters, conv)
+			options.converters = append(options.converters, conv())
 		default:
 			panic(fmt.Errorf("unknown option %s", cSwitch))
 		}
